@@ -36,6 +36,9 @@ def gen(tier, rng):
                 if tier != 'thorough' and isinstance(rs, slice) and isinstance(cs, slice) and rng.random() < 3 / 4: continue
                 yield R, (rs if cs is None else (rs, cs))
         yield R, ()
+        for i in sorted({-nr - 2, -2 * nr, -2 * nr + 1, -2 * nr - 1, nr + 1, 2 * nr} - set(range(-nr - 1, nr + 1))):      # far out of range: refused, nothing written
+            for cs in (None, 0, slice(None)):
+                yield R, (i if cs is None else (i, cs))
 def values_for(R, idx, sel):
     """value kinds for a selection result `sel` (canonical [kind, payload]) or None if refused"""
     vals = [("s", [0, -1])]
@@ -86,6 +89,8 @@ def impl_chunk(items):
 
 def run(Rn, tier, rng):
     from harness import c06, fam_ra2
+    huge_stage(Rn, tier, rng)
+    c06.big_derived_stage(Rn, tier, rng)
     fam_ra2.run_c03(Rn, tier, rng)            # dtype-wide assignments (floats with 1e16 / inf, extremes), mask assignment with per-cell values
     c06.run_programs(Rn, tier, rng, observe=False, assign=True)     # assignments into lazily derived arrays (views with repeated rows included)
     items = [it for it in gen(tier, rng) if not (isinstance(it[1], tuple) and len(it[1]) == 2 and isinstance(it[1][0], list) and isinstance(it[1][1], list)
@@ -98,6 +103,35 @@ def run(Rn, tier, rng):
         if o.startswith("ERR"): m = s = "oracle-error: " + o[:80]
         else: m, s = parse(o)
         Rn.record(line, impl, m, s, nt, kind)
+
+
+def huge_stage(Rn, tier, rng):
+    """more selected rows than any chunk size in the index builder (the library splits work at 100000 rows): the addressed rows receive the
+    values, every skipped row (one of them directly before an empty selected row) keeps its content; compared with plain lists, reported as
+    the number of differing rows"""
+    from npstructures import RaggedArray
+    n = 100003
+    lens = [(1 if i % 7 else 0) if i % 11 else 3 for i in range(n)]; lens[1] = 2; lens[2] = 0; lens[0] = 1
+    rows = []; c = 0
+    for l in lens: rows.append(list(range(c, c + l))); c += l
+    flat = np.arange(c, dtype=np.int64)
+    sels = {"all-but-row-1 (index array)": [0] + list(range(2, n)), "every row (slice)": slice(None), "even rows": slice(0, None, 2),
+            "mask without rows 1, 50000": [i not in (1, 50000) for i in range(n)]}
+    for name, sel in sels.items():
+        chosen = list(range(n))[sel] if isinstance(sel, slice) else ([i for i, b in enumerate(sel) if b] if isinstance(sel[0], bool) else sel)
+        for vname in ("scalar", "column"):
+            col = [1000000 + 3 * i for i in range(len(chosen))]
+            def f():
+                a = RaggedArray(flat.copy(), lens)
+                idx = sel if isinstance(sel, slice) else np.array(sel)
+                a[idx] = -5 if vname == "scalar" else np.array(col).reshape(-1, 1)
+                got = a.tolist()
+                want = [list(r) for r in rows]
+                for k, i in enumerate(chosen): want[i] = [(-5 if vname == "scalar" else col[k])] * len(rows[i])
+                bad = [i for i in range(n) if got[i] != want[i]] if len(got) == n else ["row count", len(got)]
+                return [len(bad), bad[:5]]
+            Rn.record(f"huge-setitem {n} rows [{name}] = {vname}", guarded(f), [0, []], [0, []], True, "huge/" + vname,
+                      py=f"lens = [(1 if i % 7 else 0) if i % 11 else 3 for i in range({n})]; lens[1] = 2; lens[2] = 0; lens[0] = 1; a = RaggedArray(np.arange(sum(lens)), lens); a[{name}] = {vname}; differing rows vs plain lists")
 
 
 def translator_tie():
